@@ -67,7 +67,7 @@ inductive ImportErr where
 
 /-- One log in its own SQL transaction. -/
 def importOne (now : Time) (s : State) (log : Log) : State × Option Err :=
-  match run now "t" none (importLog log) { db := s.db, seq := s.seq } with
+  match run now "t" [] (importLog log) { db := s.db, seq := s.seq } with
   | (.error e, st) => ({ s with seq := st.seq }, some e)
   | (.ok _, st) => ({ db := st.db, seq := st.seq }, none)
 
